@@ -20,6 +20,7 @@ Definition c09_merge q h1 h2 s2 := showQc (@g_c09_merge Qc _ q h1 h2 s2).
 Definition c09_closed q h s2 := showQc (@g_c09_closed Qc _ q h s2).
 Definition fixed_grid_run cf t0 u0 dts := showQc (@g_fixed_grid Qc _ cf t0 u0 dts).
 Definition step_run cf st dt := showQc (@g_step Qc _ cf st dt).
+Definition init_run cf t0 u0 cinit := showQc (@g_init Qc _ cf t0 u0 cinit).
 Definition finalize_run cf st0 sts st1 := showQc (@g_finalize Qc _ cf st0 sts st1).
 Definition spec_smooth_run cf st0 sts dts := showQc (@g_spec_smooth Qc _ cf st0 sts dts).
 Definition error_run cf est per_unit prev_u t_prop dt ref atol rtol nk :=
